@@ -30,6 +30,13 @@ def _compiled_vector_operand(x, scan):
     return x
 
 
+def _compiled_power(backend, a, b):
+    """a^b in compiled code: the Power verb itself, so that the result is an integer when
+    it is whole exactly as in interpreted evaluation (Python's ** gives 1**-2 == 1.0)."""
+    from ..dyads import eval_dyad_power
+    return eval_dyad_power(a, b, backend)
+
+
 class NumpyBackendProvider(BackendProvider):
     """NumPy-based backend provider."""
 
@@ -122,7 +129,7 @@ class NumpyBackendProvider(BackendProvider):
 
         param_names = list(self._collect_params(ir))
         fn_source = f"def _expr({', '.join(param_names)}): return {source}"
-        ns = {'np': np, '_vec': _compiled_vector_operand}
+        ns = {'np': np, '_vec': _compiled_vector_operand, '_pow': lambda a, b: _compiled_power(self, a, b)}
         try:
             exec(fn_source, ns)
         except Exception:
@@ -145,7 +152,9 @@ class NumpyBackendProvider(BackendProvider):
             r = self._ir_to_source(right)
             if l is None or r is None:
                 return None
-            py_op = {'+': '+', '-': '-', '*': '*', '%': '/', '^': '**'}.get(op)
+            if op == '^':
+                return f'_pow({l},{r})'
+            py_op = {'+': '+', '-': '-', '*': '*', '%': '/'}.get(op)
             if py_op is None:
                 return None
             return f'({l}{py_op}{r})'
